@@ -85,6 +85,9 @@ func genPlan(t *rapid.T, tier string) any {
 	if rapid.IntRange(0, 5).Draw(t, "unique") == 0 {
 		p.UniqueNames = true
 		p.Scripts[rapid.IntRange(0, n-1).Draw(t, "dup")].DupEntry = true
+	} else if rapid.IntRange(0, 4).Draw(t, "dupallowed") == 0 {
+		// without RequireUniqueNames the later (shorter) entry of the same name is what the script must find
+		p.Scripts[rapid.IntRange(0, n-1).Draw(t, "dup2")].DupEntry = true
 	}
 	if rapid.IntRange(0, 5).Draw(t, "setupfail") == 0 {
 		p.SetupFail = rapid.IntRange(0, n-1).Draw(t, "setupfailidx")
@@ -545,6 +548,20 @@ func run(t *testing.T, plan any, keep bool) *simcheck.Outcome {
 					got := regexp.MustCompile(` [0-9a-f]+`).ReplaceAllString(r.Body, "")
 					if got != want {
 						out.Violate("initial-tree", "%s script %s: the work directory at Setup holds\n%s\nwant exactly the archive's files\n%s", label, r.Script, got, want)
+					} else if i >= 0 && i < len(p.Scripts) && strings.HasPrefix(r.Script, "s") {
+						// ... with the archive's contents (the last entry of a name counts)
+						f := fmt.Sprintf("content of script %d\n", i)
+						if p.Scripts[i].DupEntry {
+							f = fmt.Sprintf("second copy %d\n", i)
+							out.Count("duplicate_entry_unpacked", 1)
+						}
+						sum := func(name, data string) string {
+							return fmt.Sprintf("%s %x", name, sha256.Sum256([]byte(data)))[:len(name)+1+12]
+						}
+						wantC := strings.Join([]string{".tmp/", "a/", sum("a/f.txt", f), "d/", sum("d/keep.txt", fmt.Sprintf("keep %d\n", i)), "w/", sum("w/src", "#!/bin/false\n")}, "\n")
+						if r.Body != wantC {
+							out.Violate("initial-content", "%s script %s: the archive's files do not have the archive's contents at Setup:\n%s\nwant\n%s", label, r.Script, r.Body, wantC)
+						}
 					}
 				}
 			case "deferorder":
@@ -758,7 +775,7 @@ var harness = &simcheck.Harness{
 	Property: "C04",
 	Level:    "exploration",
 	Rule: "rapid draws a batch of 2-4 scripts of 2-9 lines each over the same relative names (mkdir cp mv rm cd env exists, foreground / background stub processes that create files and print their environment and cwd, background programs that exit but leave a descendant holding their output pipes for 150-450 ms, wait, " +
-		"[exec:tool] guards with per-script PATHs (a shared tool directory that only some scripts have on PATH; a $WORK/bin that every script puts on PATH and only some install the program into), stop, skip, failing and negated lines, probe and defer custom commands, custom commands that skip or fail the script directly through the T of Env.T, symbolic links from the work directory to a restricted directory of somebody else's, a PATH without the program, a background name used twice), retention options (TestWork / WorkdirRoot), RequireUniqueNames with a duplicate entry, " +
+		"[exec:tool] guards with per-script PATHs (a shared tool directory that only some scripts have on PATH; a $WORK/bin that every script puts on PATH and only some install the program into), stop, skip, failing and negated lines, probe and defer custom commands, custom commands that skip or fail the script directly through the T of Env.T, symbolic links from the work directory to a restricted directory of somebody else's, a PATH without the program, a background name used twice), retention options (TestWork / WorkdirRoot), RequireUniqueNames with a duplicate entry, a duplicate (shorter) entry without it - the later one must be what the script finds, " +
 		"a failing Setup, a script file that has vanished, optionally an earlier RunT call in the same process that asked for retention, host GORACE, verbosity, a -parallel limit and a schedule; the batch runs once, then every script runs alone; non-trivial = more context switches than scripts+2; distinct by decision-trace hash",
 	Gen:     genPlan,
 	NewPlan: func() any { return &Plan{} },
